@@ -8,6 +8,17 @@ def rapid_stage(prop, quick, thorough, qshards=2, tshards=16, qto=300, tto=3000,
     return d
 
 CHECKS = {
+    "C11": {
+        "stages": [rapid_stage("C11", 1500, 20000),
+                   {"name": "corpus", "run": "^FuzzParseConfig$", "shards": {"quick": 1, "thorough": 1}, "timeout": {"quick": 120, "thorough": 120}},
+                   {"name": "fuzz", "gofuzz": "^FuzzParseConfig$", "fuzztime": {"thorough": "90s"}, "tiers": ["thorough"], "timeout": {"thorough": 600}}],
+        "crash_is_violation": True,
+        "design_ref": "DESIGN.md 4 C11",
+        "technique": "property-based testing (rapid): two-way differential against an independent draft-section-4 codec, round trips, crypto/tls client+server interop handshakes, prefix/garbage/perturbation operators; native fuzzing of the parser (thorough)",
+        "level_text": "Randomised exploration of ConfigSpecs and lists with four oracles (independent codec both ways, round trip, crypto/tls acceptance on both sides incl. a real ECH handshake, parser robustness).",
+        "level_note": "Interop cases are restricted to what crypto/tls can use (X25519, valid DNS public name, at least one supported suite); the other cases are codec-only.",
+        "assumptions": ["crypto/tls's ECH config validation is the reference for 'accepts'"],
+    },
     "C02": {
         "stages": [rapid_stage("C02", 40, 60, tto=3400)],
         "design_ref": "DESIGN.md 4 C02",
